@@ -406,6 +406,11 @@ func writeEvidence(c *Check, o Options, parts []*BatchStats, agg *BatchStats, vi
 		"replay_exact":          replayExact,
 		"reach_missing":         missing,
 	}
+	if c.Extra != nil {
+		for k, v := range c.Extra() {
+			cov[k] = v
+		}
+	}
 	ev := map[string]any{
 		"property_id": c.Property,
 		"tier":        o.Tier,
